@@ -17,6 +17,13 @@ def toDlg (undef : D) (pol : Gen.DlgTok D S → List Policy.Stmt) (g : Gen.DlgTo
   { iss := g.issuer, aud := g.audience, sub := if g.subject = undef then none else some g.subject,
     cmd := g.command, pol := pol g, nbf := g.notBefore, exp := g.expiration }
 
+theorem toDlg_sub_ne (undef sub : D) (pol) (g : Gen.DlgTok D S) (hs : sub ≠ undef) :
+    ((toDlg undef pol g).sub ≠ some sub) ↔ g.subject ≠ sub := by
+  unfold toDlg
+  by_cases h : g.subject = undef
+  · simp [h]; exact fun e => hs e.symm
+  · simp [h]
+
 def toInv {X : Type} (x : X) (args : Node) (g : Gen.InvTok D C) : Chain.Inv D C X :=
   { iss := g.issuer, sub := g.subject, cmd := g.command, args := args, prf := g.proof, exp := g.expiration,
     aud := some g.audience, nonce := x, metadata := x, cause := x, iat := x }
